@@ -64,12 +64,20 @@ def run_struct(case):
         except Exception as e:   # noqa
             box['e'] = type(e).__name__ + ': ' + str(e)[:120]
         box['n'] = len(sd._children) - n0
+        if case['kind'] == 'ctor' and case['cls'] in AUDIO_IN and case['rate'] == 'ar':
+            # these constructors convert the signal input to audio rate BEFORE the expansion: a non-list
+            # input is converted once and shared by all channels, so only the units of the class itself
+            # are one per combination (the conversion units are compared structurally, per channel)
+            box['n'] = len([u for u in sd._children[n0:] if type(u).__name__ == case['cls']])
         raise Abort()
     try:
         SynthDef('c03law', graph)
     except Abort:
         pass
     return box
+
+
+AUDIO_IN = ('DelayN', 'DelayC', 'CombL', 'AllpassC', 'BufDelayN', 'BufCombL', 'DelTapWr')
 
 
 def is_list(t):
